@@ -13,7 +13,9 @@ THEOREMS = ['Fsic.C02.' + n for n in [
     'solveT_min_gt_max', 'solveT_offset_oob', 'solveT_offset_copy', 'solveT_offset_zero', 'pyIndex_offset',
     'solveT_converges', 'solveT_fails', 'failed_count_is_max_iter', 'good_iff', 'converging_calls',
     'failing_calls', 'logged_transparent', 'solvePeriod_eq_solveT', 'solvePeriod_keyError',
-    'solveT_outcome_exists', 'solveT_history_irrelevant', 'solveT_stamp_history_irrelevant']] + ['Fsic.solveT_eq_outcome']
+    'solveT_outcome_exists', 'solveT_history_irrelevant', 'solveT_stamp_history_irrelevant',
+    'solveT_agreement', 'solveT_true_sound', 'solveT_false_sound', 'closeBy_iff', 'closeBy_blocked', 'closeBy_empty',
+    'closeBy_mono', 'converged_all_near']] + ['Fsic.solveT_eq_outcome', 'Fsic.outcome_agrees', 'Fsic.loop_cases', 'Fsic.loop_bound']
 RULE = ('scripted models: every outcome sequence over {close, same, edge(|diff|==tol), far, one-variable-far, nan, '
         '+inf, raise, warn}^L crossed with max_iter 0..L, min_iter 0..max_iter+1, errors x catch_first_error '
         '(exhaustive core), plus random cases over n, number of endogenous/check variables (incl. none), t in both '
